@@ -17,6 +17,9 @@ MODULES = ["FlVerif.Props.C17"]
 NAMESPACE = "C17"
 TIE_A = ["code:fuzzylite.term.Function.infix_to_postfix", "code:fuzzylite.term.Function.parse",
          "code:fuzzylite.term.Function.Node.evaluate", "code:fuzzylite.term.Function.evaluate", "code:fuzzylite.term.Function.membership"]
+TIE_A += ["code:fuzzylite.factory.ConstructionFactory.construct", "code:fuzzylite.factory.CloningFactory.copy",
+          "code:fuzzylite.factory.FunctionFactory.operators", "code:fuzzylite.factory.FunctionFactory.functions",
+          "code:fuzzylite.factory.FunctionFactory._precedence"]
 RULE = ("typed expression trees to depth 5 over all 13 operators, all 34 functions/constants, literals and 1-3 engine / term "
         "variables and x, written with minimal | random redundant | full parentheses and random spacing, evaluated on "
         "scalars and on arrays (mixed with scalars); ill-formed variants (operand deleted, arity changed, parenthesis "
